@@ -18,7 +18,13 @@ A case: {'filters': [...], 'kwargs': {...}, 'order': ..., 'default_order': ..., 
          'scalars': bool}; a filter is null (ignored argument), ['c', field, op, value] (3-tuple),
 ['c2', field, value] (2-tuple), ['or', [filters], {kwargs}].  Values: JSON scalars, or
 {'list': [...]}, {'tuple': [...]}, {'set': [...]}.
-Optional key 'table': 'big' runs the case on the 1500-row table `tb` (same columns) - the table of the
+A static condition (caller-supplied SQL text, e.g. "t.S = 'abc'") is ['st', text, ast, flags]: `text` is what is
+passed to SqlMethod, `ast` is the condition it was rendered from by THIS module (render_static) - the meaning of the
+text "as written", evaluated by holds3 - and `flags` are style notes of the rendering (reach events only).  The
+three-valued evaluator, not the implementation, says which rows the text selects; that sqlite reads the text the same
+way is validated by the run on the unchanged tree.
+Optional key 'table': 'mix' runs the case on the 12-row table `tm` whose text values differ by letter case only
+('abc' / 'ABC' / 'Abc', "o'q" / "O'Q", 'actor' / 'ACTOR'); 'big' runs the case on the 1500-row table `tb` (same columns) - the table of the
 long IN / NOT IN value lists (more values than LONG_LIST, the per-list limits / chunk sizes of db engines
 and drivers); absent = the 6-row table `t`.
 """
@@ -57,7 +63,22 @@ def _big_row(i):
 
 
 BIG_ROWS = [_big_row(i) for i in range(1, BIG_N + 1)]
-TABLES = {None: ('t', ROWS), 'big': ('tb', BIG_ROWS)}
+# the mixed-case table: text values which differ by letter case only, a quote, a '?', a '_'; n == id on some rows
+MIX_ROWS = [
+    (1, 1, 'abc'),
+    (2, 2, 'ABC'),
+    (3, None, 'Abc'),
+    (4, 2, None),
+    (5, 0, "o'q"),
+    (6, 7, "O'Q"),
+    (7, 3, ''),
+    (8, 8, 'a?c'),
+    (9, 5, 'actor'),
+    (10, 10, 'ACTOR'),
+    (11, 1, 'a_c'),
+    (12, 12, 'James'),
+]
+TABLES = {None: ('t', ROWS), 'big': ('tb', BIG_ROWS), 'mix': ('tm', MIX_ROWS)}
 LONG_LIST = 500         # a value list with more members than this is "long"
 LONG_LENS_QUICK = [501, 600, 1001, 1200]
 LONG_LENS = [501, 512, 600, 999, 1000, 1001, 1200, 1501, 2100]
@@ -144,6 +165,8 @@ def intent(f):
         subs = [intent(x) for x in f[1]]
         subs += [intent_leaf(k, '=', v) for k, v in sorted(f[2].items())]
         return ('or', subs)
+    if f[0] == 'st':
+        return ('static', f[1], f[2])       # the condition as written: the tree the text was rendered from
     raise AssertionError(f"harness: filter {f}")
 
 
@@ -163,6 +186,14 @@ def t_or(xs):
     if any(x is None for x in xs):
         return None
     return False
+
+
+def t_and(xs):
+    if any(x is False for x in xs):
+        return False
+    if any(x is None for x in xs):
+        return None
+    return True
 
 
 def sql_eq(a, b_):
@@ -241,13 +272,27 @@ def holds3(c, row):
         return t_not(r) if c[2] else r
     if k == 'or':
         return t_or([holds3(x, row) for x in c[1]]) if c[1] else False
+    if k == 'static':
+        return holds3(c[2], row)
+    # the remaining kinds occur inside static conditions only
+    if k == 'and':
+        return t_and([holds3(x, row) for x in c[1]])
+    if k == 'not':
+        return t_not(holds3(c[1], row))
+    if k == 'colcmp':
+        a, op, v = row[c[1]], c[2], row[c[3]]
+        if a is None or v is None:
+            return None
+        if isinstance(a, str) != isinstance(v, str):
+            raise AssertionError("harness: cross-type column comparison generated")
+        return {'=': a == v, '!=': a != v, '>': a > v, '<': a < v, '>=': a >= v, '<=': a <= v}[op]
     raise AssertionError(c)
 
 
 def params_of(c):
     """operand values left to right; a set contributes an unordered group"""
     k = c[0]
-    if k in ('const', 'isnull'):
+    if k in ('const', 'isnull', 'static'):
         return []
     if k in ('cmp', 'like'):
         return [('v', c[3])]
@@ -322,6 +367,8 @@ def db():
         c.executemany("INSERT INTO t VALUES (?, ?, ?)", ROWS)
         c.execute("CREATE TABLE tb (id INTEGER PRIMARY KEY, n INTEGER, s TEXT)")
         c.executemany("INSERT INTO tb VALUES (?, ?, ?)", BIG_ROWS)
+        c.execute("CREATE TABLE tm (id INTEGER PRIMARY KEY, n INTEGER, s TEXT)")
+        c.executemany("INSERT INTO tm VALUES (?, ?, ?)", MIX_ROWS)
         c.commit()
         _DB = c
     return _DB
@@ -336,6 +383,8 @@ def to_arg(f):
         return (f[1], dval(f[2]))
     if f[0] == 'or':
         return mtd_sql.SqlMethod._or(*[to_arg(x) for x in f[1]], **{k: dval(v) for k, v in f[2].items()})
+    if f[0] == 'st':
+        return f[1]
     raise AssertionError(f)
 
 
@@ -438,9 +487,12 @@ def evaluate(case, localise_ok=True):
         if not isinstance(sql, str) or isinstance(params, dict):
             out.append(('values_bound', 'shape', f"{descr}: execute({short_r(sql)}, {short_r(params)})"))
             return out
-        if sql.count('?') != len(params):
+        statics = static_texts(case)
+        # a '?' inside a text literal of a static condition is text, not a placeholder
+        n_static_q = sum(t.count('?') for t in statics)
+        if sql.count('?') - n_static_q != len(params):
             out.append(('values_bound', 'placeholder-count',
-                        f"{descr}: {sql.count('?')} placeholders for {len(params)} parameters: {short_r(sql)} {short_r(params)}"))
+                        f"{descr}: {sql.count('?') - n_static_q} placeholders for {len(params)} parameters: {short_r(sql)} {short_r(params)}"))
         exp = [p for c in conj for p in params_of(c)]
         pos, ok = 0, True
         for kind, v in exp:
@@ -456,10 +508,40 @@ def evaluate(case, localise_ok=True):
                         f"{descr}: parameters {short_r(params)}, intended operand values "
                         f"{short_r([v for _k, v in exp])}, sql {short_r(sql)}"))
         for t in sorted(distinctive_texts(conj, select_of(case))):
-            if t in sql:
+            # the caller's own static texts may contain the same characters as an operand (in whatever letter
+            # case): those occurrences are the caller's code, every further one is a value that became text
+            if sql.count(t) > sum(st.lower().count(t.lower()) for st in statics):
                 out.append(('values_bound', 'value-in-sql', f"{descr}: operand text {t!r} occurs in the SQL {short_r(sql)}"))
                 break
+        # supporting clause (not in the property statement): the static texts reach the statement verbatim, in order
+        pos = 0
+        for st in statics:
+            at = sql.find(st, pos)
+            if at < 0:
+                out.append((SUPPORTING, 'static-verbatim',
+                            f"{descr}: the static condition {st!r} does not occur verbatim (in argument order) in the "
+                            f"statement {short_r(sql)}"))
+                break
+            pos = at + len(st)
     return out
+
+
+SUPPORTING = 'supporting'
+
+
+def static_filters(f):
+    """the static conditions inside a filter, left to right"""
+    if f is None:
+        return []
+    if f[0] == 'st':
+        return [f]
+    if f[0] == 'or':
+        return [x for sub in f[1] for x in static_filters(sub)]
+    return []
+
+
+def static_texts(case):
+    return [st[1] for f in case['filters'] for st in static_filters(f)]
 
 
 def sub_filters(f):
@@ -508,6 +590,8 @@ def leaf_kinds(c):
         return ks
     if c[0] == 'const':
         return {'empty-in'}
+    if c[0] == 'static':
+        return {'static'}
     if c[0] == 'cmp' and c[3] is None:
         return {'cmp-null'}
     if c[0] == 'in' and len(c[3]) > LONG_LIST:
@@ -540,6 +624,8 @@ def describe(case):
             return short((f[1], f[2], dval(f[3])))
         if f[0] == 'c2':
             return short((f[1], dval(f[2])))
+        if f[0] == 'st':
+            return repr(f[1])
         return '_or(' + ', '.join([d(x) for x in f[1]] + [f"{k}={short_r(dval(v))}" for k, v in sorted(f[2].items())]) + ')'
     parts = [d(f) for f in case['filters']] + [f"{k}={short_r(dval(v))}" for k, v in sorted(case['kwargs'].items())]
     if case['order'] is not None:
@@ -764,9 +850,355 @@ def gen_big_cases(tier, seed):
                       api=rnd.choice(['list', 'list', 'all']), scalars=rnd.random() < .15, table='big')
 
 
+# ------------------------------------------------------------------ static conditions (caller-supplied SQL text)
+# A static condition is generated as a small condition tree (the kinds of the intent tree, plus 'and', 'not' and
+# 'colcmp' = column against column) and rendered to SQL text by render_static in varying styles: letter case of
+# identifiers and keywords, table-qualified identifiers, spacing, '<>' / '==', literal first, parentheses.  Text
+# literals are rendered with their letters exactly as in the tree: their letter case, quotes and '?' are data.
+STATIC_TEXT_LITS = ['abc', 'ABC', 'Abc', "o'q", "O'Q", '', '%', 'a?c', 'actor', 'ACTOR', 'James', 'zz9zz',
+                    "x'; DROP TABLE t; --", 'a_c']
+MIRROR = {'=': '=', '!=': '!=', '<': '>', '>': '<', '<=': '>=', '>=': '<='}
+
+
+def static_leaf_pool():
+    out = []
+    for v in STATIC_TEXT_LITS:
+        for op in ('=', '!='):
+            out.append(['cmp', 's', op, v])
+    for v in ('abc', 'ABC', 'Abc', 'a'):
+        for op in ('<', '>=', '>', '<='):
+            out.append(['cmp', 's', op, v])
+    for v in (0, 2, -5, 7731):
+        for op in ('=', '!=', '<', '>='):
+            out.append(['cmp', 'n', op, v])
+    out += [['cmp', 'id', '>', 2], ['cmp', 'id', '<=', 4], ['cmp', 'id', '!=', 5]]
+    out += [['cmp', 'n', '=', None], ['cmp', 's', '!=', None]]
+    for f in ('n', 's'):
+        out += [['isnull', f, False], ['isnull', f, True]]
+    for neg in (False, True):
+        for vs in (['abc', 'ABC'], ['actor', 'agent'], ["o'q"], ['abc', None], ['Abc', "O'Q", '', 'a?c']):
+            out.append(['in', 's', neg, vs, False])
+        for vs in ([1, 2], [2, None], [7731]):
+            out.append(['in', 'n', neg, vs, False])
+        for p in ('a%', 'A%', '%c', '_b_', "o'%", '%', 'a?c', '%?%', 'ACTOR', ''):
+            out.append(['like', 's', neg, p])
+        out.append(['like', 'n', neg, '7%'])
+    for op in ('=', '!=', '<', '>='):
+        out.append(['colcmp', 'n', op, 'id'])
+    out += [['colcmp', 'id', '>', 'n'], ['colcmp', 's', '=', 's']]
+    return out
+
+
+def render_static(ast, rnd, tbl, plain=False, bare_or=False):
+    """-> (text, flags).  plain: the canonical lower-case spelling with single spaces"""
+    flags = set()
+    kwstyle = 'lower' if plain else rnd.choice(['lower', 'lower', 'upper', 'cap'])
+
+    def kw(w):
+        flags.add('kw-' + kwstyle)
+        if kwstyle == 'upper':
+            return w.upper()
+        if kwstyle == 'cap':
+            return ' '.join(x.capitalize() for x in w.split(' '))
+        return w
+
+    def ident(f):
+        v = 0 if plain else rnd.randrange(8)
+        if v in (0, 1, 2):
+            flags.add('ident-lower')
+            return f
+        if v == 3:
+            flags.add('ident-not-lower')
+            return f.upper()
+        if v == 4:
+            flags.add('ident-not-lower')
+            return f.capitalize() if len(f) > 1 else f.upper()
+        flags.add('ident-qualified')
+        if v == 5:
+            return tbl + '.' + f
+        flags.add('ident-not-lower')
+        return (tbl.upper() + '.' + f.upper()) if v == 6 else (tbl.capitalize() + '.' + f)
+
+    def lit(v):
+        if v is None:
+            return kw('null')
+        if isinstance(v, str):
+            return "'" + v.replace("'", "''") + "'"
+        return str(v)
+
+    def sp():
+        return ' ' if plain else rnd.choice([' ', ' ', ' ', '', '  '])
+
+    def opsp(op):
+        if plain:
+            return op
+        if op == '!=' and rnd.random() < .3:
+            return '<>'
+        if op == '=' and rnd.random() < .15:
+            return '=='
+        return op
+
+    def r(c, top=False):
+        k = c[0]
+        if k == 'cmp':
+            s_ = sp()
+            if not plain and c[3] is not None and rnd.random() < .15:
+                flags.add('literal-first')
+                return lit(c[3]) + s_ + opsp(MIRROR[c[2]]) + s_ + ident(c[1])
+            return ident(c[1]) + s_ + opsp(c[2]) + s_ + lit(c[3])
+        if k == 'colcmp':
+            s_ = sp()
+            return ident(c[1]) + s_ + opsp(c[2]) + s_ + ident(c[3])
+        if k == 'isnull':
+            return ident(c[1]) + ' ' + kw('is not null' if c[2] else 'is null')
+        if k == 'in':
+            sep = ', ' if plain else rnd.choice([', ', ', ', ','])
+            return ident(c[1]) + ' ' + kw('not in' if c[2] else 'in') + ' (' + sep.join(lit(v) for v in c[3]) + ')'
+        if k == 'like':
+            return ident(c[1]) + ' ' + kw('not like' if c[2] else 'like') + ' ' + lit(c[3])
+        if k == 'not':
+            return kw('not') + ' (' + r(c[1]) + ')'
+        if k == 'and':
+            return (' ' + kw('and') + ' ').join(('(' + r(x) + ')') if x[0] == 'or' else r(x) for x in c[1])
+        if k == 'or':
+            body = (' ' + kw('or') + ' ').join(('(' + r(x) + ')') if (x[0] == 'and' and (plain or rnd.random() < .5))
+                                               else r(x) for x in c[1])
+            if top and bare_or:
+                flags.add('bare-or')
+                return body
+            return '(' + body + ')'
+        raise AssertionError(c)
+
+    text = r(ast, top=True)
+    if not plain:
+        x = rnd.random()
+        if x < .08:
+            text = ' ' + text + ' '
+        elif x < .16 and not (ast[0] == 'or' and bare_or):
+            text = '(' + text + ')'
+    return text, sorted(flags)
+
+
+def mk_static(ast, rnd, tbl_key, plain=False, bare_or=False):
+    text, flags = render_static(ast, rnd, TABLES[tbl_key][0], plain=plain, bare_or=bare_or)
+    return ['st', text, ast, flags]
+
+
+def static_literals(c):
+    """the text literals of a static tree that are compared exactly (=, !=, <, IN ...; not LIKE patterns)"""
+    k = c[0]
+    if k == 'cmp':
+        return [c[3]] if isinstance(c[3], str) else []
+    if k == 'in':
+        return [v for v in c[3] if isinstance(v, str)]
+    if k in ('and', 'or'):
+        return [v for x in c[1] for v in static_literals(x)]
+    if k == 'not':
+        return static_literals(c[1])
+    return []
+
+
+def map_literals(c, fn):
+    k = c[0]
+    if k == 'cmp':
+        return [k, c[1], c[2], fn(c[3]) if isinstance(c[3], str) else c[3]]
+    if k == 'in':
+        return [k, c[1], c[2], [fn(v) if isinstance(v, str) else v for v in c[3]], c[4]]
+    if k in ('and', 'or'):
+        return [k, [map_literals(x, fn) for x in c[1]]]
+    if k == 'not':
+        return [k, map_literals(c[1], fn)]
+    return c
+
+
+def has_kind(c, kind):
+    if c[0] == kind:
+        return True
+    if c[0] in ('and', 'or'):
+        return any(has_kind(x, kind) for x in c[1])
+    if c[0] == 'not':
+        return has_kind(c[1], kind)
+    return False
+
+
+def static_events(case):
+    ev = set()
+    rows = [dict(zip(COLS, r)) for r in table_of(case)[1]]
+    tops = [f for f in case['filters'] if f is not None]
+    n_conds = len(tops) + len(case['kwargs'])
+
+    def group(f, anded):
+        subs = f[1]
+        if any(x[0] == 'st' for x in subs):
+            ev.add('static-inside-or')
+            if any(x[0] in ('c', 'c2') for x in subs) or f[2]:
+                ev.add('static-inside-or-with-bound')
+            if anded:
+                ev.add('static-inside-or-anded')
+        for x in subs:
+            if x[0] == 'or':
+                group(x, anded)
+
+    for f in tops:
+        if f[0] == 'st':
+            if n_conds == 1:
+                ev.add('static-alone')
+            if any(g[0] != 'st' for g in tops) or case['kwargs']:
+                ev.add('static-and-bound')
+            if sum(1 for g in tops if g[0] == 'st') > 1:
+                ev.add('static-and-static')
+        elif f[0] == 'or':
+            group(f, n_conds > 1)
+    for st in (x for f in tops for x in static_filters(f)):
+        ast = st[2]
+        for fl in st[3]:
+            ev.add('static-' + fl)
+        lits = static_literals(ast)
+        if any(v != v.upper() for v in lits):
+            ev.add('static-literal-lower-case-letters')
+        if any(v != v.lower() for v in lits):
+            ev.add('static-literal-upper-case-letters')
+        if any("'" in v for v in lits):
+            ev.add('static-literal-with-quote')
+        if any('?' in v for v in lits) or any('?' in c_ for c_ in [st[1]]):
+            ev.add('static-text-with-question-mark')
+        for kind in ('colcmp', 'and', 'or', 'not', 'in', 'like', 'isnull'):
+            if has_kind(ast, kind):
+                ev.add('static-' + {'colcmp': 'column-comparison'}.get(kind, kind))
+        sel = [holds3(ast, r) is True for r in rows]
+        if any(sel) and not all(sel):
+            ev.add('static-selects-proper-subset')
+        # the letter case of a literal decides the row set: the same condition with the literals upper-cased /
+        # lower-cased selects other rows
+        for fn, name in ((str.upper, 'static-differs-from-upper-cased'), (str.lower, 'static-differs-from-lower-cased')):
+            if [holds3(map_literals(ast, fn), r) is True for r in rows] != sel:
+                ev.add(name)
+    return ev
+
+
+STATIC_REACH = ['static', 'static-alone', 'static-and-bound', 'static-and-static', 'static-inside-or',
+                'static-inside-or-with-bound', 'static-inside-or-anded',
+                'static-literal-lower-case-letters', 'static-literal-upper-case-letters', 'static-literal-with-quote',
+                'static-text-with-question-mark', 'static-ident-not-lower', 'static-ident-qualified', 'static-kw-lower',
+                'static-kw-upper', 'static-kw-cap', 'static-literal-first', 'static-bare-or',
+                'static-column-comparison', 'static-and', 'static-or', 'static-not', 'static-in', 'static-like',
+                'static-isnull', 'static-selects-proper-subset',
+                'static-differs-from-upper-cased', 'static-differs-from-lower-cased']
+
+
+def g_static_ast(rnd, pool, depth=0):
+    x = rnd.random()
+    if depth < 2 and x < .25:
+        kind = rnd.choice(['and', 'or', 'or', 'not'])
+        if kind == 'not':
+            return ['not', g_static_ast(rnd, pool, depth + 1)]
+        return [kind, [g_static_ast(rnd, pool, depth + 1) for _ in range(rnd.choice([2, 2, 3]))]]
+    return rnd.choice(pool)
+
+
+def gen_static_cases(tier, seed):
+    """static conditions: alone, AND-ed with bound conditions (before / after / keyword filters / ignored None),
+    inside OR groups, in seeded trees; on the 6-row table and on the mixed-case table"""
+    rnd = random.Random(seed * 15485863 + 1501)
+    quick = tier == 'quick'
+    pool = static_leaf_pool()
+    leaves = list(all_leaves())
+    # 1. every static leaf alone: canonical spelling and seeded styles, both tables
+    for tk in (None, 'mix'):
+        for ast in pool:
+            yield mk_case([mk_static(ast, rnd, tk, plain=True)], order='id', table=tk)
+            for _ in range(2 if quick else 6):
+                yield mk_case([mk_static(ast, rnd, tk)], order='id', table=tk)
+    # 2. composite static conditions alone (a top-level OR also without parentheses)
+    for i in range(150 if quick else 1500):
+        tk = (None, 'mix')[i % 2]
+        kind = ('and', 'or', 'not', 'or')[i % 4]
+        if kind == 'not':
+            ast = ['not', g_static_ast(rnd, pool, 1)]
+        else:
+            ast = [kind, [g_static_ast(rnd, pool, 1) for _ in range(rnd.choice([2, 2, 3]))]]
+        yield mk_case([mk_static(ast, rnd, tk, plain=(i % 5 == 0), bare_or=(i % 3 == 0))],
+                      order=rnd.choice(ORDERS), default_order=rnd.choice([None, 'id']), table=tk,
+                      api=rnd.choice(['list', 'all']))
+    # 3. a static condition AND-ed with bound ones / inside OR groups: grid over a spread of both pools
+    sp_static = pool[::(5 if quick else 2)]
+    sp_bound = leaves[::(29 if quick else 7)]
+    i = 0
+    for ast in sp_static:
+        for lf in sp_bound:
+            i += 1
+            tk = (None, 'mix')[i % 2]
+            st = mk_static(ast, rnd, tk, plain=(i % 4 == 0))
+            form = i % 8
+            if form == 0:
+                yield mk_case([st, lf], order='id', table=tk)
+            elif form == 1:
+                yield mk_case([lf, st], order='id DESC', table=tk)
+            elif form == 2:
+                yield mk_case([['or', [st, lf], {}]], order='id', table=tk)
+            elif form == 3:
+                yield mk_case([['or', [lf, st], {}], ['c', 'id', '<', 6]], order='id', table=tk)
+            elif form == 4:
+                yield mk_case([None, st, None], {'n': 2}, order='id', table=tk)
+            elif form == 5:
+                yield mk_case([['or', [st], {'s': 'abc', 'n': 0}]], order='id', table=tk)
+            elif form == 6:
+                yield mk_case([['or', [st], {}], lf], order='n, id', table=tk)
+            else:
+                yield mk_case([st, ['or', [lf, ['or', [mk_static(rnd.choice(pool), rnd, tk, bare_or=True)], {}]], {}]],
+                              order='id', table=tk)
+    # 4. two static conditions: AND-ed, OR-ed
+    for i in range(60 if quick else 600):
+        tk = (None, 'mix')[i % 2]
+        a = mk_static(g_static_ast(rnd, pool), rnd, tk)
+        b_ = mk_static(g_static_ast(rnd, pool), rnd, tk)
+        if i % 3 == 0:
+            yield mk_case([a, b_], order='id', table=tk)
+        elif i % 3 == 1:
+            a = mk_static(a[2], rnd, tk, bare_or=True)
+            yield mk_case([['or', [a, b_], {}]], order='id', table=tk)
+        else:
+            yield mk_case([['or', [a], {}], b_], {'id': {'list': [1, 2, 3, 5]}}, order='s DESC, id', table=tk)
+    # 5. seeded trees in which every leaf position may be a static condition (at least one is)
+    for i in range(900 if quick else 20000):
+        tk = (None, 'mix', 'mix')[i % 3]
+        n_static = [0]
+
+        def leaf(in_or):
+            if rnd.random() < .45:
+                n_static[0] += 1
+                return mk_static(g_static_ast(rnd, pool), rnd, tk, bare_or=in_or and rnd.random() < .3)
+            return g_leaf(rnd, leaves)
+
+        def group(depth=1):
+            subs = []
+            for _ in range(rnd.choice([1, 2, 2, 3])):
+                if depth < 2 and rnd.random() < .15:
+                    subs.append(group(depth + 1))
+                else:
+                    subs.append(leaf(True))
+            return ['or', subs, g_kwargs(rnd) if rnd.random() < .2 else {}]
+
+        filters = []
+        for _k in range(rnd.choice([1, 2, 2, 3])):
+            x = rnd.random()
+            if x < .1:
+                filters.append(None)
+            elif x < .45:
+                filters.append(group())
+            else:
+                filters.append(leaf(False))
+        if not n_static[0]:
+            filters.insert(rnd.randrange(len(filters) + 1), mk_static(g_static_ast(rnd, pool), rnd, tk))
+        kw = g_kwargs(rnd) if rnd.random() < .3 else {}
+        yield mk_case(filters, kw, order=rnd.choice(ORDERS), default_order=rnd.choice([None, None, 'id', 'n DESC, id']),
+                      api=rnd.choice(['list', 'list', 'all']), scalars=rnd.random() < .15, table=tk)
+
+
 def gen_cases(tier, seed):
     yield from gen_small_cases(tier, seed)
     yield from gen_big_cases(tier, seed)
+    yield from gen_static_cases(tier, seed)
 
 
 def gen_small_cases(tier, seed):
@@ -814,7 +1246,7 @@ def gen_small_cases(tier, seed):
                       api=rnd.choice(['list', 'list', 'all']), scalars=rnd.random() < .15)
 
 
-NULL_SENSITIVE = {'in', 'cmp', 'cmp-null', 'like', 'isnull'}
+NULL_SENSITIVE = {'in', 'cmp', 'cmp-null', 'like', 'isnull', 'static'}
 
 
 def run(b):
@@ -830,6 +1262,9 @@ def run(b):
                 b.hit('kwargs-filter')
             for ev in long_events(conj) - kinds:
                 b.hit(ev)
+            if 'static' in kinds:
+                for ev in static_events(case):
+                    b.hit(ev)
             b.case(case, nontrivial=bool(kinds & NULL_SENSITIVE),
                    sample=(b.evaluations % 499 == 0 and not case.get('table')))
             res = evaluate(case)
@@ -837,11 +1272,15 @@ def run(b):
             b.error(f"harness exception {type(e).__name__}: {e} on {case}")
             continue
         for clause, ksuf, text in res:
+            if clause == SUPPORTING:
+                b.diag(f"C15.{ksuf}: {text}")
+                continue
             b.fail(f"C15.{clause}", f"C15.{clause}:{ksuf}", text, case)
+    b.require_reach(STATIC_REACH)
     b.require_reach(['empty-in', 'or', 'or-empty', 'like', 'isnull', 'in', 'cmp', 'cmp-null',
                      'ignored-None-argument', 'kwargs-filter'] + sorted(LONG_EVENTS))
 
 
 def replay_case(case):
     res = evaluate(case)
-    return (not res), [f"{c} [{k}]: {t}" for c, k, t in res]
+    return (not [r for r in res if r[0] != SUPPORTING]), [f"{c} [{k}]: {t}" for c, k, t in res]
